@@ -8,6 +8,7 @@ import (
 	"strings"
 	"unicode/utf8"
 
+	"github.com/jsightapi/jsight-api-core/catalog"
 	"github.com/jsightapi/jsight-api-core/kit"
 )
 
@@ -199,7 +200,7 @@ func checkC04(j *kit.JApi) (sig string, what string) {
 	b, eb := wrapBytes(j.ToJsonIndent)
 	switch {
 	case ea != "":
-		return "c04:tojson-fails", "the build succeeded but ToJson fails: " + ea
+		return "c04:tojson-fails" + failingComponent(j), "the build succeeded but ToJson fails: " + ea
 	case eb != "":
 		return "c04:tojsonindent-fails", "the build succeeded but ToJsonIndent fails: " + eb
 	case !utf8.Valid(a) || !json.Valid(a) || !json.Valid(b):
@@ -494,4 +495,36 @@ func minInt(a, b int) int {
 		return a
 	}
 	return b
+}
+
+// failingComponent names the part of the catalog whose serialisation fails (for signatures):
+// ":pathVariables:example-invalid" is the shape of the recorded finding C04-path-body-unchecked
+// (a Path body whose example contradicts its rule), anything else is reported as it is.
+func failingComponent(j *kit.JApi) string {
+	var out string
+	func() {
+		defer func() { recover() }()
+		_ = j.Catalog().Interactions.Each(func(_ catalog.InteractionID, v catalog.Interaction) error {
+			hi, ok := v.(*catalog.HTTPInteraction)
+			if !ok || hi.PathVariables == nil || out != "" {
+				return nil
+			}
+			if _, err := json.Marshal(hi.PathVariables); err != nil {
+				if strings.Contains(err.Error(), "not found") {
+					out = ":pathVariables:type-not-found"
+				} else {
+					out = ":pathVariables:example-invalid"
+				}
+				// only when everything else serialises
+				saved := hi.PathVariables
+				hi.PathVariables = nil
+				if _, err2 := j.Catalog().ToJson(); err2 != nil {
+					out = ""
+				}
+				hi.PathVariables = saved
+			}
+			return nil
+		})
+	}()
+	return out
 }
